@@ -335,6 +335,9 @@ class LruRun:
                     self.ref_touch(k)
                 elif k not in self.ref_order:
                     self.ref_order.append(k)
+                elif k in before and before[k][1] is None and not self.served_unexpired(before[k]):
+                    self.ref_touch(k)              # expired: recomputed now, which is a use (F15)
+                    self.flags.add("expiry_recompute")
             elif finished and rk == 0:
                 if call["exec"] is None and not call.get("hit_counted"):
                     self.ref_touch(k)              # waited for the flight and reused its result
@@ -482,8 +485,16 @@ class LruRun:
         """LRU lower bound on clean histories: a key survives while fewer than maxsize distinct other keys have
         been active since its last use."""
         k = call["key"]
-        if not self.clean or self.ttl is not None or self.effmax == 0 or self.fi or self.fw:
+        if not self.clean or self.effmax == 0 or self.fi or self.fw:
             return
+        if self.ttl is not None:
+            # a recomputation is legitimate when the latest value of the key had expired when the call began
+            done = [e for e in self.execs if e["key"] == k and e["outcome"] and e["outcome"][0] == "ret"
+                    and e["end"] < call["begin"]]
+            if done:
+                v = max(done, key=lambda e: e["end"])["outcome"][1]
+                if call["T"] >= self.stored_at[v][2] + self.ttl:
+                    return
         t1 = None
         for prev in self.calls:
             if prev is call or prev["key"] != k or prev["end"] is None or prev["end"] >= call["begin"]:
@@ -534,6 +545,23 @@ class LruRun:
         self.retention_bound()
         if w.loop.errors:
             self.hit("loop", None, f"loop errors: {w.loop.errors[:2]}")
+
+    def settle(self, c, finish=True):
+        """run caller c's call forward: up to the wrapped function, and if `finish` to its end"""
+        w = self.world
+        for _ in range(8):
+            p = w.puppets[c]
+            if p.at_decision:
+                return
+            f = self.wfut.get(c)
+            if self.stage.get(c) == "wrapped" and f is not None and not f.done():
+                if not finish:
+                    return
+                self.do(1, c, self.fresh())
+            if w.runnable(p):
+                self.do(4, c, 0)
+            else:
+                return
 
     def fresh(self):
         v = self.nextval
@@ -715,6 +743,42 @@ def directed_case(rng: random.Random):
         return r
 
 
+def ttl_case(rng: random.Random):
+    """Directed ttl family: mostly sequential calls over a few keys with clock ticks in between, so that expired and
+    unexpired entries coexist; reaches 'expired key recomputed, then a miss evicts, then the key is requested
+    again' (F15) and hits just before / recomputations just after the expiry."""
+    cfg = {"maxsize": rng.choice([2, 2, 3]), "ttl": rng.choice([1, 2, 2, 3]), "always_checkpoint": rng.random() < 0.25,
+           "typed": False, "ncall": 3}
+    nkeys = cfg["maxsize"] + rng.choice([1, 1, 2])
+    with LruRun(cfg["maxsize"], cfg["ttl"], cfg["always_checkpoint"], cfg["typed"], cfg["ncall"]) as r:
+        r.valid = True
+        r.flags.add("directed_ttl")
+        w = r.world
+        try:
+            recent = []
+            for _ in range(rng.choice([8, 12, 16, 20])):
+                for _ in range(rng.choice([0, 0, 1, 1, 2])):
+                    r.do(5, 0, 0)
+                idle = [c for c, p in w.puppets.items() if p.at_decision]
+                if not idle:
+                    c = rng.choice(list(w.puppets))
+                    r.settle(c)
+                    continue
+                c = rng.choice(idle)
+                k = rng.choice(recent[-2:]) if recent and rng.random() < 0.45 else rng.randrange(nkeys)
+                recent.append(k)
+                r.do(0, c, 2 * k)
+                if rng.random() < 0.85:
+                    r.settle(c)
+                else:
+                    r.settle(c, finish=False)      # left in flight for a while
+            r.quiesce()
+        except Exception as e:  # noqa: BLE001
+            r.crash = f"{type(e).__name__}: {e}"
+            r.valid = False
+        return r
+
+
 def exhaustive_cases(cfg, nkeys: int, depth: int):
     """All op sequences up to `depth` that the implementation enables (DFS by replay), callers used in order."""
     results = []
@@ -834,9 +898,9 @@ def check(tier: str) -> int:
     n_random = 350 if tier == "quick" else 9000
     for _ in range(n_random):
         runs.append(random_case(rng, rng.choice([6, 10, 16, 24, 40])))
-    n_directed = 150 if tier == "quick" else 3000
-    for _ in range(n_directed):
-        runs.append(directed_case(rng))
+    n_directed = 240 if tier == "quick" else 4000
+    for i in range(n_directed):
+        runs.append(directed_case(rng) if i % 2 == 0 else ttl_case(rng))
     base = {"ttl": None, "always_checkpoint": False, "typed": False}
     if tier == "thorough":
         ex = (exhaustive_cases(dict(base, maxsize=1, ncall=3), 2, 7)
@@ -885,7 +949,8 @@ def check(tier: str) -> int:
         # a tie is broken and no monitor tripped on this batch: search further on the implementation alone
         srng = random.Random(core.seed() + 1)
         for i in range(1500 if tier == "quick" else 6000):
-            r = directed_case(srng) if i % 3 == 0 else random_case(srng, srng.choice([10, 16, 24, 40]))
+            r = (directed_case(srng) if i % 4 == 0 else ttl_case(srng) if i % 4 == 1
+                 else random_case(srng, srng.choice([10, 16, 24, 40])))
             if r.unexplained():
                 viol.append(r)
                 if len(viol) >= 3:
@@ -953,7 +1018,9 @@ def check(tier: str) -> int:
                 "of all enabled op sequences to a fixed depth; non-trivial = reaches a contended wait, an eviction, "
                 "a ttl replacement, a reuse of a first result or a cancellation inside the call; plus a directed family (one "
                 "flight with callers queued on it, other keys used meanwhile, the flight returns / raises / is cancelled, "
-                "further keys until eviction, probes); monitor hits are explained per key from the evictions observed "
+                "further keys until eviction, probes) and a directed ttl family (mostly sequential calls over maxsize+1..2 "
+                "keys with clock ticks in between: expired and unexpired entries coexist, expired keys are recomputed, "
+                "misses evict, keys are re-requested); monitor hits are explained per key from the evictions observed "
                 "on the implementation's cache dict",
         "exhaustive_small_scope_cases": exhaustive,
         "corpus_cases": n_corpus,
@@ -975,7 +1042,7 @@ def check(tier: str) -> int:
     if not vm_ok:
         rep.coverage["vm_compute_log"] = vm_log[-800:]
     for need in ("contended_wait", "evict_value", "evict_inflight", "evict_waited", "ttl_expiry_replaced",
-                 "reuse_first_result", "cancel_lock_wait", "cancel_in_wrapped", "hit", "hit_checkpoint",
+                 "reuse_first_result", "cancel_lock_wait", "cancel_in_wrapped", "hit", "hit_checkpoint", "expiry_recompute", "directed", "directed_ttl",
                  "wrapped_raised", "internal_keyerror", "double_flight", "exceeds_maxsize", "clear"):
         if not flags.get(need):
             rep.notes.append(f"generator self-check: predicate {need} never reached")
